@@ -25,7 +25,7 @@ def run(tier, seed, replay=None):
     from splipy.splinemodel import SplineModel, Orientation, OrientationError, TwinError
     from splipy.utils import sections
     rng = random.Random(seed)
-    reps = 25 if tier == 'quick' else 300
+    reps = 60 if tier == 'quick' else 300
     dist = {'op': {}, 'pardim': {}, 'kind': {}, 'patches': {}, 'rational': {}}
     evals = 0
     nontriv = set()
